@@ -533,6 +533,37 @@ def run_falsy_device(case, obs=None):
     return out
 
 
+def run_partial_table(case, obs=None):
+    """a caller-assigned command set whose entry lists only SOME of the service actions the facade knows (an SPC-2 style PERSISTENT
+    RESERVE IN with READ KEYS and READ RESERVATION only): the actions it lists are served with one command each"""
+    from pyscsi.pyscsi.scsi import SCSI
+    from pyscsi.pyscsi.scsi_opcode import OpCode
+    from pyscsi.utils.enum import Enum
+    _, listed, sa_name = case
+    full = {"READ_KEYS": 0, "READ_RESERVATION": 1, "REPORT_CAPABILITIES": 2, "READ_FULL_STATUS": 3}
+    table = {k: full[k] for k in listed}
+    dev = RecDev(Enum({"INQUIRY": OpCode("INQUIRY", 0x12, {}), "PERSISTENT_RESERVE_IN": OpCode("PERSISTENT_RESERVE_IN", 0x5E, table)}))
+    s = SCSI(dev, 512)
+    dev.opcodes = Enum({"INQUIRY": OpCode("INQUIRY", 0x12, {}), "PERSISTENT_RESERVE_IN": OpCode("PERSISTENT_RESERVE_IN", 0x5E, table)})
+    del dev.calls[:]
+    dev.response = response_for("persistentreservein", {"service_action": full[sa_name]}, 0)
+    where = "persistentreservein(%s) on a device whose own table lists %r" % (sa_name, listed)
+    try:
+        s.persistentreservein(full[sa_name])
+        oc = "returned"
+    except Exception as e:   # noqa: BLE001
+        oc = "raised %s: %s" % (type(e).__name__, e)
+    want_sent = sa_name in listed
+    # (an action before the first unlisted one in the facade's order is served; asking for an unlisted one may fail either way)
+    order = ["READ_KEYS", "READ_RESERVATION", "REPORT_CAPABILITIES", "READ_FULL_STATUS"]
+    servable = want_sent and all(k in listed for k in order[:order.index(sa_name)])
+    if servable and (oc != "returned" or len(dev.calls) != 1 or dev.calls[0]["cdb"][:2] != bytes([0x5E, full[sa_name]])):
+        return [("partial_table/%s" % sa_name, "%s: %s, the device saw %r" % (where, oc, [c["cdb"].hex() for c in dev.calls]))]
+    if not want_sent and dev.calls:
+        return [("partial_table/sent_unlisted", "%s: not listed, yet the device saw %r" % (where, [c["cdb"].hex() for c in dev.calls]))]
+    return []
+
+
 def run_reattach(case, obs=None):
     """a facade is attached to the SAME device object a second time after the device behind it changed (SG_IO: the node was re-plugged
     with a unit of another type; any device object: the caller changed dev.opcodes): the second attach probes again - exactly one
@@ -713,6 +744,8 @@ def run_case(case, obs=None):
         return run_subclass_facade(case, obs)
     if case[0] == "falsy_device":
         return run_falsy_device(case, obs)
+    if case[0] == "partial_table":
+        return run_partial_table(case, obs)
     if case[0] == "tools":
         from vf.props import c13_tools
         return c13_tools.run_tool(*c13_tools.SCRIPTS[case[1]], case[2])[0]
@@ -936,6 +969,18 @@ def run_partition(part, tier, seed):
                     acc.outcome((repr(case), tuple(obs), tuple(k for k, _ in v)))
         return acc
     if part[0] == "falsy_device":
+        for listed in (["READ_KEYS"], ["READ_KEYS", "READ_RESERVATION"], ["READ_KEYS", "READ_RESERVATION", "REPORT_CAPABILITIES"]):
+            for sa_name in ("READ_KEYS", "READ_RESERVATION", "REPORT_CAPABILITIES", "READ_FULL_STATUS"):
+                case = ["partial_table", listed, sa_name]
+                acc.case(case, nontrivial=True, key=repr(case))
+                try:
+                    v = run_case(case, [])
+                except Exception:
+                    import traceback
+                    v = [("harness_error", traceback.format_exc()[-600:])]
+                for k, w in v:
+                    acc.violation(k, w, case)
+                acc.outcome((repr(case), tuple(k for k, _ in v)))
         for m in F.FACADE:
             for st in F.sets_offering(m):
                 if st == "spc" and m not in ("inquiry", "testunitready", "reportluns"):
